@@ -38,6 +38,10 @@ def at4_handshake(inst):
     body = b""
     for a in inst["acs"]:
         bitmap = sum(1 << z for z in a["zones"])
+        if inst.get("fmt") == "old":
+            # consoles before the group bitmap was introduced: 22 bytes follow, the AC's groups are start .. start+count-1
+            body += (bytes([a["id"], 22]) + ac_name(a)[:16].ljust(16, b"\0") + bytes([a["start"], a["count"], a["modes"], a["fans"], a["lo"], a["hi"]]))
+            continue
         body += (bytes([a["id"], 24]) + ac_name(a)[:16].ljust(16, b"\0")
                  + bytes([a.get("start", 0), a.get("count", 0), a["modes"], a["fans"], a["lo"], a["hi"], bitmap & 0xFF, bitmap >> 8]))
     ops.append(msg(0x1F, bytes([0xFF, 0x11]) + body))
@@ -268,7 +272,10 @@ def random_install(rng, gen, n_acs=None, n_zones=None):
         stem = rng.choice(["Ground floor living room number ", "Küche und Esszimmer im Erdgeschoss ", "y" * 60 + " "])
         for z in zones:
             zones[z]["name"] = stem + str(z)
-    return dict(acs=acs, zones=zones, version=rng.choice(["1.2.3", "1.0.5", "9.9"]), update=rng.choice([0, 0, 1]))
+    extra = {}
+    if gen == 4 and all("start" in a for a in acs) and rng.random() < 0.5:
+        extra["fmt"] = "old"          # every AC's groups are one contiguous block: an old console can describe this installation
+    return dict(acs=acs, zones=zones, version=rng.choice(["1.2.3", "1.0.5", "9.9"]), update=rng.choice([0, 0, 1]), **extra)
 
 
 class Console:
